@@ -942,6 +942,16 @@ fn named_schedules() -> Vec<(usize, Vec<String>)> {
         (2, s(&["W:55d4a90", "L:1:0", "I:0:one:p:1:c1", "W:55d4a91", "L:1:1", "I:0:one:d:1", "B:0:1", "Q"])),
         // duplicated batch, restart in between
         (2, s(&["W:55d4a90", "I:0:none:P:1.d1,2.d2", "B:0:1", "B:0:1", "R:1", "B:0:1", "Q"])),
+        // a delete of a document the node never held, issued after a peer is already in sync with it:
+        // the peer must still learn of the tombstone (the node's change stamp must move)
+        (2, s(&["W:55d4a90", "I:0:none:p:9:b9", "X:1:0", "W:55d4a93", "I:1:none:p:1:b1", "W:55d4a95", "I:0:none:d:1", "Q"])),
+        (3, s(&["W:55d4a90", "I:0:none:p:9:b9", "X:1:0", "X:2:0", "W:55d4a93", "I:1:none:p:1:b1", "X:2:1", "W:55d4a95", "I:0:none:D:1,7", "Q"])),
+        // two writes of one document inside one batching interval: the batch carries the newest stamp
+        // WITH the newest bytes
+        (2, s(&["W:55d4a90", "I:0:none:p:1:c1", "W:55d4a91", "I:0:none:p:1:c2", "T", "Q"])),
+        (3, s(&["W:55d4a90", "I:0:none:p:1:c1", "W:55d4a91", "I:0:one:p:1:c2", "W:55d4a92", "I:0:none:P:1.c3,2.c4", "T", "Q"])),
+        // a peer that could not be reached for one batch is still a member: the next batch reaches it
+        (3, s(&["W:55d4a90", "I:0:none:p:1:d1", "L:1:0", "T", "L:1:1", "W:55d4a95", "I:0:none:p:2:d2", "T", "Q"])),
         // an exchange whose document fetch fails (after the state was fetched and the removals applied)
         // must be repeated too
         (2, s(&["W:55d4a90", "I:0:none:p:1:f1", "W:55d4a93", "I:0:none:p:2:f2", "W:55d4a95", "I:0:none:d:3", "XG:1:0", "Q"])),
